@@ -183,6 +183,10 @@ func (hdr *Header) String() string {
 // why EOF on ubuntu with 22?
 // https://github.com/google/gopacket/blob/master/layers/tcp.go<Paste>
 func (hdr *Header) Unmarshal(data []byte) error {
+	if len(data) < 20 {
+		return fmt.Errorf("Invalid TCP header size: %d", len(data))
+	}
+
 	hdr.Source = binary.BigEndian.Uint16(data[0:2])
 	hdr.Destination = binary.BigEndian.Uint16(data[2:4])
 	hdr.SeqNum = binary.BigEndian.Uint32(data[4:8])
@@ -228,6 +232,9 @@ Loop:
 		case optionKindNop: // 1 byte padding
 			opt.OptionLength = 1
 		default:
+			if len(data) < 2 {
+				return fmt.Errorf("Invalid TCP option %d: missing length", opt.OptionType)
+			}
 			opt.OptionLength = data[1]
 			if opt.OptionLength < 2 {
 				return fmt.Errorf("Invalid TCP option length %d < 2", opt.OptionLength)
